@@ -83,6 +83,15 @@ func VerifyUnit(L *Loaded, db *ContractDB, pkg *packages.Package, fd *ast.FuncDe
 				x.runBody(fd.Recv, fd.Type, fd.Body, c, cs)
 			}
 		}()
+		// a loop block of the contract that no executed loop picked up is a contract that does not fit the
+		// code (wrong ordinal after an edit): its clauses would silently check nothing
+		if res.Err == "" {
+			for k := range c.Loops {
+				if !x.loopSeen[k] {
+					res.Err = fmt.Sprintf("contract gives clauses for loop %d, but no such loop was reached in %s", k, unit)
+				}
+			}
+		}
 		for _, n := range x.oblOrder {
 			res.Obls = append(res.Obls, x.obls[n])
 		}
@@ -289,7 +298,7 @@ func (x *Exec) runBody(recv *ast.FieldList, ftype *ast.FuncType, body *ast.Block
 			x.checkExits(c, o, "panic")
 			continue
 		case outBreak, outContinue:
-			if o.out == outBreak && o.label == "" && strings.HasPrefix(c.LitSel, "case:") {
+			if o.out == outBreak && o.label == "" && (strings.HasPrefix(c.LitSel, "case:") || strings.HasPrefix(c.LitSel, "if:")) {
 				o.out = outNormal // break out of the switch whose clause is the unit
 				break
 			}
@@ -400,6 +409,20 @@ func describeObl(o *Obligation) string {
 func (x *Exec) checkExits(c *Contract, o *State, how string) {
 	save := x.saveContractCtx()
 	defer x.restoreContractCtx(save)
+	if c.Opts["locks"] == "track" {
+		// every lock the activation took is released on every way out (a frame mutex left locked blocks
+		// the next user of the frame for ever)
+		held, _ := o.names["$locks"].([]heldLock)
+		if how == "panic" && strings.HasSuffix(o.note, " panics") {
+			// a panic propagating out of a callee: what it leaves locked is the callee-panic finding of the
+			// unit, not a second one; explicit returns and panic statements are what this obligation is about
+			held = nil
+		}
+		for _, h := range held {
+			x.contract = false
+			x.oblige(o, "lock", "released-at-exit["+h.text+"]/"+how, "false", "every lock taken is released on every exit: "+h.text+" is still held")
+		}
+	}
 	o.names["panicking"] = boolLit(how == "panic")
 	if _, ok := o.names["recoverResult"]; !ok {
 		o.names["recoverResult"] = intLit(0)
